@@ -78,7 +78,7 @@ var (
 // c14Base is left inside a block: cases run on cached deliver-state contexts that are never written back.
 func c14Base() *chain.Node {
 	c14Once.Do(func() {
-		n := chain.NewNode(hOpts(History{NumVals: 3}))
+		n := chain.NewNode(hOpts(History{NumVals: 3, ModuleAccts: true})) // (a network whose genesis lists the module accounts)
 		for i := 0; i < 3; i++ {
 			n.BeginBlock(chain.BlockIn{})
 			n.EndBlockCommit()
